@@ -68,6 +68,13 @@ def main():
     if os.path.exists(os.path.join(wt, "NOTES.md")):
         shutil.copy(os.path.join(wt, "NOTES.md"), os.path.join(dst, "NOTES.md"))
     meta["confirmed"] = ok
+    needs_path = os.path.join(ROOT, "seeded", "needs.json")
+    if os.path.exists(needs_path):
+        nd = json.load(open(needs_path)).get(sid)
+        if nd:
+            meta["property"], meta["needs"] = nd
+    meta["ran"] = ("demo with and without the change in the scratch worktree (git apply -R / git apply), the repository suite "
+                   "with the change (pytest -n 8 --dist loadfile), then the listed quick checks against the changed worktree")
     with open(os.path.join(dst, "meta.json"), "w") as f:
         json.dump(meta, f, indent=1)
 
